@@ -432,6 +432,22 @@ Example tail_field_examples :
   end.
 Proof. vm_compute. repeat split; reflexivity. Qed.
 
+(* APL: items of the three address families (the IPv6 address contains colons: the first colon splits), the
+   empty list, a missing prefix *)
+Example apl_examples :
+  match schema_of 42 with
+  | Some apl =>
+      let a1 := [VApl [(1, false, [10; 0; 0; 0], 8); (2, true, [32; 1; 13; 184; 0; 0; 0; 0; 0; 0; 0; 0; 0; 0; 0; 1], 128);
+                       (3, false, [48; 97; 70; 70], 255)]] in
+      (do text <- record_to_text ex_sty apl a1; record_from_text ex_ctx apl (schema_chk 42) text) = Ok a1
+      /\ (do text <- record_to_text ex_sty apl a1; Ok text)
+         = Ok [49;58;49;48;46;48;46;48;46;48;47;56;32;33;50;58;50;48;48;49;58;100;98;56;58;58;49;47;49;50;56;32;51;58;48;97;70;70;47;50;53;53]
+      /\ (do text <- record_to_text ex_sty apl [VApl []]; record_from_text ex_ctx apl (schema_chk 42) (text ++ [10])) = Ok [VApl []]
+      /\ record_from_text ex_ctx apl (schema_chk 42) [49; 58; 49; 46; 50; 46; 51; 46; 52] = Lib eSyntax
+  | None => False
+  end.
+Proof. vm_compute. repeat split; reflexivity. Qed.
+
 (* KEY: the flags / protocol mnemonics of RFC 2535 are accepted on input; with NOKEY flags nothing follows the
    algorithm (the printed trailing blank is harmless); a key after NOKEY is rejected *)
 Example key_examples :
